@@ -1,5 +1,99 @@
-import ChumskyModel.Model.Spec
+/-
+  C18 — user state and inspectors see a history consistent with the parse.
+
+  The inspector of the model is the list of tokens it has been fed (the harness keeps `(count, hash)`, a function
+  of that list); its checkpoint is a snapshot.
+-/
+import ChumskyModel.Proofs.Lemmas.Top
+import ChumskyModel.Proofs.Lemmas.SpecInv
+set_option linter.unusedSimpArgs false
 namespace Chumsky
-theorem placeholder_C18 : True := trivial
-#print axioms placeholder_C18
+
+/-- **C18 (machine = reading).** However much backtracking, lookahead or recovery happened, after a successful run
+    the machine's inspector is the one of the PEG reading (which never rewinds anything). -/
+theorem c18_machine_inspector (n : Nat) (env : Env) (m : Mode) (g : G) (st : St) (hm : env.memoOn = false) :
+    match run n env m g st, peg n env g st.ss st.ctx with
+    | .ok _ st', .ok _ s' _ => st'.insp = s'.insp ∧ st'.pos = s'.pos
+    | .ok _ _, _ => False
+    | _, _ => True := by
+  have h := run_refines n env m g st hm
+  revert h
+  cases run n env m g st <;> cases peg n env g st.ss st.ctx <;> simp [Refines]
+  intro h
+  have := h.ss
+  simp [St.ss] at this
+  cases this
+  exact ⟨rfl, rfl⟩
+
+/-- **C18 (invariant).** Outside `with_state` scopes the inspector of the reading equals the state obtained by
+    feeding it exactly the tokens before the current position: a successful sub-parse from `s` to `s'` feeds exactly
+    the tokens between the two positions — every observation (`map_with`, fold callbacks, `select`) reads this state. -/
+theorem c18_fed (n : Nat) (env : Env) (hdefs : ∀ d ∈ env.defs, d.noStateScope = true) (g : G)
+    (hg : g.noStateScope = true) (s : SS) (ctx : Val) {v s' em} (h : peg n env g s ctx = .ok v s' em) :
+    s.pos ≤ s'.pos ∧ s'.insp = s.insp ++ (env.toks.drop s.pos).take (s'.pos - s.pos) :=
+  peg_fed' n env hdefs g hg s ctx h
+
+theorem c18_prefix_invariant (n : Nat) (env : Env) (hdefs : ∀ d ∈ env.defs, d.noStateScope = true) (g : G)
+    (hg : g.noStateScope = true) (ctx : Val) {s : SS} {v s' em} (hs : s.pos ≤ env.toks.length)
+    (hi : s.insp = env.toks.take s.pos) (h : peg n env g s ctx = .ok v s' em) :
+    s'.insp = env.toks.take s'.pos :=
+  peg_insp_prefix n env hdefs g hg ctx hs hi h
+
+/-- what an observation node reads: the inspector at its own end position -/
+theorem c18_observation (n : Nat) (env : Env) (a : G) (s : SS) (ctx : Val) {v s1 e1}
+    (ha : peg n env a s ctx = .ok v s1 e1) :
+    peg (n + 1) env (.mapWithState a) s ctx = .ok (.pair v (.insp s1.insp)) s1 e1 := by
+  simp [peg, pegStep, SOut.andThen, ha]
+
+/-- **after a successful parse the state has seen exactly the whole input** (machine level, any mode) -/
+theorem c18_final_state (n : Nat) (env : Env) (m : Mode) (g : G) (hm : env.memoOn = false)
+    (hg : g.noStateScope = true) (hdefs : ∀ d ∈ env.defs, d.noStateScope = true) (r : ParseResult) (f : St)
+    (h : parseTop n env m g = .result r f) (v : Val) (ho : r.output = some v) :
+    f.insp = env.toks ∧ f.pos = env.toks.length := by
+  have ht := parseTop_refines n env m g hm
+  rw [h] at ht
+  cases hp : pegTop n env g <;> rw [hp] at ht <;> simp only [TopRefines] at ht
+  · rename_i v' s em
+    have := pegTop_insp n env g hp hg hdefs
+    have hs := ht.2.1
+    simp [St.ss] at hs
+    cases hs
+    exact this
+  · rw [ho] at ht; simp at ht
+
+/-- `with_state` gives its sub-parser a fresh copy of the given state on every invocation and leaves the outer
+    state untouched -/
+theorem c18_with_state (n : Nat) (env : Env) (a : G) (s : SS) (ctx : Val) :
+    peg (n + 1) env (.withState a) s ctx =
+      match peg n env a ⟨s.pos, []⟩ ctx with
+      | .ok v s1 e1 => .ok v ⟨s1.pos, s.insp⟩ e1
+      | o => o :=
+  peg_withState n env a s ctx
+
+theorem c18_with_state_outer_untouched (n : Nat) (env : Env) (a : G) (s : SS) (ctx : Val) {v s' em}
+    (h : peg n env (.withState a) s ctx = .ok v s' em) : s'.insp = s.insp :=
+  peg_withState_insp n env a s ctx h
+
+theorem c18_with_state_inner_fresh (n : Nat) (env : Env) (hdefs : ∀ d ∈ env.defs, d.noStateScope = true) (a : G)
+    (ha : a.noStateScope = true) (s : SS) (ctx : Val) {v s1 e1} (h : peg n env a ⟨s.pos, []⟩ ctx = .ok v s1 e1) :
+    s.pos ≤ s1.pos ∧ s1.insp = (env.toks.drop s.pos).take (s1.pos - s.pos) :=
+  peg_withState_inner n env hdefs a ha s ctx h
+
+/-- non-vacuity: observation after backtracking over a consumed token and a lookahead -/
+example :
+    (match parseTop 12 { toks := [97, 98], memoOn := false } .emit
+        (.or_ (.then_ (.just [97]) (.just [97]))
+              (.then_ (.andIs .any (.not_ (.just [98]))) (.mapWithState .any))) with
+      | .result r f => (r.output, f.insp)
+      | _ => (none, [])) = (some (.pair (.tok 97) (.pair (.tok 98) (.insp [97, 98]))), [97, 98]) := by
+  decide +kernel
+
+#print axioms c18_machine_inspector
+#print axioms c18_fed
+#print axioms c18_prefix_invariant
+#print axioms c18_observation
+#print axioms c18_final_state
+#print axioms c18_with_state
+#print axioms c18_with_state_outer_untouched
+#print axioms c18_with_state_inner_fresh
 end Chumsky
